@@ -570,6 +570,7 @@ type State struct {
 	epochN    int
 	rec       *dryRun
 	lastLock  *HeapSnap
+	epochAlloc *HeapVer // allocation set when the current epoch's base heaps came into being
 	frameBase map[string]*HeapVer // guarded families: frame is relative to the value at lock acquisition
 	heldEntry map[string]bool
 }
@@ -670,6 +671,20 @@ func (st *State) heap(fam string, dims []Sort, elem Sort) *HeapVer {
 	}
 	h := baseHeap(st.epoch, fam, dims, elem)
 	st.heaps[fam] = h
+	if strings.HasSuffix(fam, "#len") && elem == SInt {
+		st.asserts = append(st.asserts, lenNonNeg(h))
+	}
+	// references stored in a heap that predates this function's (or this epoch's) allocations denote
+	// objects that already existed then: nothing old points to an object allocated later
+	if _, isRef := refFams.Load(fam); isRef && elem == SInt && st.epochAlloc != nil {
+		al := st.epochAlloc.Name
+		switch len(dims) {
+		case 1:
+			st.asserts = append(st.asserts, fmt.Sprintf("(forall ((r Int)) (! (or (= (select %s r) 0) (select %s (select %s r))) :pattern ((select %s r))))", h.Name, al, h.Name, h.Name))
+		case 2:
+			st.asserts = append(st.asserts, fmt.Sprintf("(forall ((r Int) (k %s)) (! (or (= (select (select %s r) k) 0) (select %s (select (select %s r) k))) :pattern ((select (select %s r) k))))", dims[1], h.Name, al, h.Name, h.Name))
+		}
+	}
 	return h
 }
 
@@ -901,4 +916,12 @@ func (st *State) recWriteH(h *HeapVer, idx ...Term) {
 		return
 	}
 	st.rec.at[h.Fam] = append(st.rec.at[h.Fam], idx[0])
+}
+
+// lenNonNeg: every slice length stored in a heap family is non-negative.
+func lenNonNeg(h *HeapVer) string {
+	if len(h.Dims) == 2 {
+		return fmt.Sprintf("(forall ((r Int) (k %s)) (! (>= (select (select %s r) k) 0) :pattern ((select (select %s r) k))))", h.Dims[1], h.Name, h.Name)
+	}
+	return fmt.Sprintf("(forall ((r Int)) (! (>= (select %s r) 0) :pattern ((select %s r))))", h.Name, h.Name)
 }
